@@ -175,6 +175,9 @@ func identClass(name string) string { return FixedNames.class(name) }
 
 func credB64(c string) string { return base64.StdEncoding.EncodeToString([]byte("pw-" + c)) }
 
+// keys look different from passwords, so that an authenticator can tell which of the two it was handed
+func keyB64(c string) string { return base64.StdEncoding.EncodeToString([]byte("ky-" + c)) }
+
 func credClassOf(a lime.Authentication) (scheme, cred string) {
 	if a == nil {
 		return "", ""
@@ -188,7 +191,7 @@ func credClassOf(a lime.Authentication) (scheme, cred string) {
 		return "plain", "?"
 	case *lime.KeyAuthentication:
 		p, err := v.GetKeyFromBase64()
-		if err == nil && strings.HasPrefix(p, "pw-") {
+		if err == nil && strings.HasPrefix(p, "ky-") {
 			return "key", p[3:]
 		}
 		return "key", "?"
@@ -246,7 +249,7 @@ func Concretise(e tr.Event, sid string, nm Names) []byte {
 			m["authentication"] = map[string]interface{}{}
 		default:
 			if e.Scheme == "key" {
-				m["authentication"] = map[string]interface{}{"key": credB64(e.Cred)}
+				m["authentication"] = map[string]interface{}{"key": keyB64(e.Cred)}
 			} else if e.Scheme == "external" {
 				m["authentication"] = map[string]interface{}{"token": "tok-" + e.Cred, "issuer": "iss-" + e.Cred}
 			} else {
